@@ -47,4 +47,36 @@ def xTransactionWithKernel (elems : List XStep) (fee excess : Nat) : Option Tx :
     | _ => Option.none
   | _ => Option.none
 
+/-! ### the `offset` field of the folded transaction
+
+`Transaction` carries an `offset`.  `initial_tx(tx)` installs `tx.clone()` — body AND offset;
+`with_input` / `with_output` (what `input` / `output` call) and `with_excess` leave the offset
+alone.  `partial_transaction` hands the folded transaction back as it is; `transaction_with_kernel`
+ends with `tx.offset = blind_sum.split(&excess, ..)?` — an ASSIGNMENT: whatever offset the folded
+transaction carried (a finished `build::transaction` result used as `initial_tx`) is overwritten. -/
+
+/-- an element together with the offset of the transaction it installs (read for `initial_tx` only) -/
+structure XElem where
+  step : XStep
+  txOffset : Nat := 0
+  deriving DecidableEq, Repr
+
+/-- the offset of the transaction after the fold, starting from a transaction with offset `start` -/
+def foldTxOffset (start : Nat) : List XElem → Nat
+  | [] => start
+  | ⟨.initialTx _ _, f⟩ :: r => foldTxOffset f r
+  | ⟨.base _, _⟩ :: r => foldTxOffset start r
+
+/-- `build::transaction_with_kernel` on such elements: the final offset is assigned, the folded one
+is not read -/
+def xTransactionWithKernelO (elems : List XElem) (fee excess : Nat) : Option Tx :=
+  xTransactionWithKernel (elems.map (·.step)) fee excess
+
+/-- `build::partial_transaction(tx, elems, ..)`: body, blinding sum, and the offset of the returned
+transaction (the folded one) -/
+def xPartialTransactionO (ins outs : List Opening) (baseOff : Nat) (elems : List XElem) :
+    List Opening × List Opening × SumRes × Nat :=
+  let r := xPartialTransaction ins outs (elems.map (·.step))
+  (r.1, r.2.1, r.2.2, foldTxOffset baseOff elems)
+
 end GV.Keys
